@@ -507,6 +507,12 @@ def oracle_C01(spec, tr, init):
 				inflow = ed['os'] if a is not None else ed['oq']
 				if sum(ed['ispl'], F(0)) + ed['idi'] + ed['is'] != sum(pe['ispl'], F(0)) + pe['idi'] + inflow:
 					bad.append('t=%d edge%d%s: shipped != received + in transit + held at the door' % (t, e, (a, b)))
+			if a is not None and b is not None:
+				# orders on their way to the supplier: what was in the order pipeline, plus the order placed now, is either received by the
+				# supplier now or still in the pipeline - an order is never lost or duplicated on the way
+				if sum(ed['iopl'], F(0)) + ed['io'] != sum(pe['iopl'], F(0)) + ed['oq']:
+					bad.append('t=%d edge%d%s: orders in transit to the supplier not conserved (pipeline %s + received %s != previous pipeline %s + ordered %s)' % (
+						t, e, (a, b), [str(x) for x in ed['iopl']], ed['io'], [str(x) for x in pe['iopl']], ed['oq']))
 			if a is not None:
 				if ed['bo'] + ed['odi'] + ed['os'] != pe['bo'] + pe['odi'] + ed['io']:
 					bad.append('t=%d edge%d%s: ordered units not all shipped/backordered/held (BO %s ODI %s OS %s vs prev BO %s ODI %s IO %s)' % (
